@@ -227,3 +227,29 @@ Proof.
   intros H1 H2. apply accept_iff_mac_sha256 in H1 as (t & E1 & M1). apply accept_iff_mac_sha256 in H2 as (t' & E2 & M2).
   exists t, t'. repeat split; try assumption. congruence.
 Qed.
+
+(* ------------------------------------------------------------------ C03: totality, size, prefix-dependence *)
+Section WireTotal.
+Variable dec_ok : bool -> bytes -> N -> bytes -> option bool.
+
+Theorem decode_no_panic ctx b : decode dec_ok ctx b <> WPanic.
+Proof.
+  unfold decode. destruct (negb (hdr_valid b)); [discriminate|].
+  destruct (len b <? 20 + msg_length b) eqn:E; [discriminate|].
+  pose proof (dec_tlvs_no_panic (length b) (take (msg_length b) (drop 20 b))) as NP.
+  destruct (dec_tlvs (length b) (take (msg_length b) (drop 20 b))) as [tlvs| |]; [|discriminate|].
+  - match goal with |- context [existsb ?f tlvs] => destruct (existsb f tlvs) end; [discriminate|].
+    match goal with |- context [loop ?A ?T ?k ?d ?v ?o ?f ?l] => destruct (loop A T k d v o f l) end; discriminate.
+  - exfalso. apply NP; [|reflexivity]. unfold take, drop. rewrite firstn_length, skipn_length. lia.
+Qed.
+
+Theorem decode_size ctx b s p : decode dec_ok ctx b = WOk s p -> s = 20 + msg_length b /\ s <= len b.
+Proof.
+  unfold decode. destruct (negb (hdr_valid b)); [discriminate|].
+  destruct (len b <? 20 + msg_length b) eqn:E; [discriminate|]. apply N.ltb_ge in E.
+  destruct (dec_tlvs (length b) (take (msg_length b) (drop 20 b))) as [tlvs| |]; try discriminate.
+  match goal with |- context [existsb ?f tlvs] => destruct (existsb f tlvs) end; [discriminate|].
+  match goal with |- context [loop ?A ?T ?k ?d ?v ?o ?f ?l] => destruct (loop A T k d v o f l) end; [|discriminate].
+  intros H. inversion H; subst. split; [reflexivity|exact E].
+Qed.
+End WireTotal.
